@@ -86,6 +86,8 @@ MUTATIONS = [
     ('p-override-ignored', 'C13', P, "        deep_merge(ports, self.schema_override)\n", "        deep_merge(ports, self._schema_override)\n"),
     ('p-end-not-draining', 'C13', P, "            self._command_result = self.parent.recv()\n        self.parent.send(('end', None, None))",
      "            pass\n        self.parent.send(('end', None, None))"),
+    ('p-stale-view', 'C13', P, "        self.parent.send((command, args, kwargs))\n\n    def get_command_result",
+     "        if command == 'next_update':\n            self._v0 = getattr(self, '_v0', None) or args[1]\n            args = (args[0], self._v0)\n        self.parent.send((command, args, kwargs))\n\n    def get_command_result"),
     ('p-no-ended-guard', 'C13', P, "        # Only end once.\n        if self._ended:\n            return\n", "        # Only end once.\n"),
     ('p-engine-end-skips-steps', 'C13', E, "        apply_func_to_leaves(\n            self.steps, self._end_process_if_parallel)\n", ""),
     # timeline
